@@ -28,6 +28,11 @@ func (c *vScriptConn) OpenStream(ctx context.Context) (Stream, error) {
 	return nil, errors.New("scripted conn: no outgoing streams")
 }
 func (c *vScriptConn) AcceptStream(ctx context.Context) (Stream, error) {
+	for _, s := range c.streams {
+		if ms, ok := s.(*vMemStream); ok {
+			ms.duplex = true
+		}
+	}
 	if c.next >= len(c.streams) {
 		return nil, errors.New("scripted conn: no more streams")
 	}
@@ -307,4 +312,144 @@ func H_C01_streamid() {
 	vAssume(c1 != c2 || s1 != s2)
 	vAssert(makeVirtualStreamID(c1, s1) != makeVirtualStreamID(c2, s2), "distinct (connection, stream) pairs get distinct virtual stream ids")
 	vCover("C01 stream ids")
+}
+
+// ---------------------------------------------------------------------------------------------
+// C03 / C04: a resumed transfer. The receiver finds a partial file and resume metadata (symbolic
+// bitmap) from an earlier run; the marked chunks on disk equal the source (what C05 guarantees). The
+// scripted sender asks for the resume report and sends every chunk the report does not mark, plus -
+// like the real sender's verification tail - optionally one chunk that is already there, possibly
+// after the file is complete (late duplicate).
+
+func H_C04_resume()      { vC04Resume([]int{5}, false) }
+func H_C04_resume_deep() { vC04Resume([]int{5, 8}, true) }
+
+func vC04Resume(sizes []int, full bool) {
+	size := sizes[vChoice("sizeIdx", len(sizes))]
+	total := (size + 3) / 4
+	src := vBytes("src", size)
+	item := manifest.FileItem{RelPath: "f", Size: int64(size), ID: "idf"}
+	m := manifest.Manifest{Items: []manifest.FileItem{item}, TotalBytes: int64(size), FileCount: 1}
+	key := fileKeyForItem(item)
+	// state left behind by the interrupted run
+	bits := vU8("bitmap")
+	vAssume(bits>>uint(total) == 0)
+	old := vBytes("old", size)
+	for i := 0; i < total; i++ {
+		if bits&(1<<uint(i)) != 0 {
+			lo, hi := i*4, i*4+4
+			if hi > size {
+				hi = size
+			}
+			for k := lo; k < hi; k++ {
+				vAssume(old[k] == src[k]) // a marked chunk is safely in the file (C05)
+			}
+		}
+	}
+	out := vTempDir() + "/out"
+	vTempFile("out/f", old)
+	sc := &Sidecar{Path: SidecarPath(out, "", sidecarIdentifier(item)), FileID: item.ID, FileSize: int64(size), ChunkSize: 4, TotalChunks: uint32(total),
+		bitmap: &Bitmap{bits: total, data: []byte{bits}}, dirty: true}
+	vAssume(sc.Flush() == nil)
+
+	control := &vMemStream{buf: vControlBytes(m)}
+	_ = writeDataStreams(control, DataStreams{Count: 1})
+	_ = writeFileBegin(control, FileBegin{RelPath: "f", FileSize: uint64(size), ChunkSize: 4, StreamID: key, HashAlg: HashAlgCRC32C})
+	_ = writeResumeRequest(control, ResumeRequest{FileID: item.ID, StreamID: key})
+	data := &vMemStream{}
+	frame := func(i int) {
+		lo, hi := i*4, i*4+4
+		if hi > size {
+			hi = size
+		}
+		hdr := make([]byte, dataChunkHeaderLen)
+		binary.BigEndian.PutUint64(hdr[0:8], key)
+		binary.BigEndian.PutUint32(hdr[8:12], uint32(i))
+		binary.BigEndian.PutUint32(hdr[12:16], uint32(hi-lo))
+		binary.BigEndian.PutUint32(hdr[16:20], crc32.Checksum(src[lo:hi], crc32cTable))
+		data.buf = append(append(data.buf, hdr...), src[lo:hi]...)
+	}
+	dupe := total // which present-or-not chunk is sent a second time (total = none)
+	dupFirst := true
+	if full {
+		dupe = vChoice("duplicate", total+1)
+		dupFirst = vBool("duplicateFirst")
+	} else if vBool("duplicateChunk0") {
+		dupe = 0
+	}
+	if dupe < total && dupFirst {
+		frame(dupe)
+	}
+	for i := 0; i < total; i++ {
+		if bits&(1<<uint(i)) == 0 {
+			frame(i)
+		}
+	}
+	if dupe < total && !dupFirst {
+		frame(dupe) // arrives after everything missing: possibly after the file is complete
+	}
+	_ = writeFileEnd(control, FileEnd{StreamID: key})
+	_ = writeControlEnd(control)
+	conn := &vScriptConn{streams: []Stream{control, data}}
+	_, err := RecvManifestMultiStream(vContext("ctx", false), conn, out, Options{NoRootDir: true, Resume: true, ResumeVerify: "last"})
+	vAssert(err == nil, "a resumed transfer between healthy peers succeeds")
+	got, rerr := os.ReadFile(out + "/f")
+	vAssert(rerr == nil && len(got) == size, "the resumed file has the announced length")
+	vAssert(vBytesEq(got, src), "after the resumed transfer the file equals the source")
+	// what the receiver advertised: every FileResumeInfo on the control stream carries the metadata found on disk
+	rep := &vMemStream{buf: control.out}
+	seen := 0
+	for {
+		typ, msg, rerr := readControlMessage(rep)
+		if rerr != nil {
+			break
+		}
+		if typ == controlTypeFileResumeInfo {
+			ri := msg.(FileResumeInfo)
+			if seen == 0 {
+				vAssert(len(ri.Bitmap) == 1 && ri.Bitmap[0] == bits, "chunks marked complete on disk are advertised to the sender as present")
+				vAssert(ri.TotalChunks == uint32(total), "the advertised chunk count is the file's")
+				if bits == 0 {
+					vAssert(ri.LastVerifiedChunk == uint32(total), "with nothing marked no chunk is offered for verification")
+				} else {
+					vAssert(ri.LastVerifiedChunk < uint32(total) && bits&(1<<ri.LastVerifiedChunk) != 0 && bits>>(ri.LastVerifiedChunk+1) == 0, "the highest marked chunk is offered for verification")
+				}
+			}
+			seen++
+		}
+	}
+	_ = seen // the writer goroutine may not have run before the call returned; reports that were written are checked above
+	vCover("C04 resumed transfer complete")
+}
+
+// ---------------------------------------------------------------------------------------------
+// C03.a: every legal relative path is accepted by the validator (so that a tree with unusual but
+// legal names can be transferred at all). Legal: non-empty, at most 1024 bytes, not absolute, no
+// path segment equal to "..", no backslash-separated ".." segment either (the validator treats '\'
+// as a separator for that purpose), no NUL.
+func H_C03_names() {
+	p := vString("path", 1+vChoice("lenMinus1", 6))
+	legal := p[0] != '/'
+	seg := 0 // length of the current segment
+	dots := 0
+	for i := 0; i <= len(p); i++ {
+		if i == len(p) || p[i] == '/' || p[i] == '\\' {
+			if seg == 2 && dots == 2 {
+				legal = false
+			}
+			seg, dots = 0, 0
+			continue
+		}
+		if p[i] == 0 {
+			legal = false
+		}
+		seg++
+		if p[i] == '.' {
+			dots++
+		}
+	}
+	if legal {
+		vCover("C03 legal name")
+		vAssert(validateRelPath(p) == nil, "a legal relative path is accepted")
+	}
 }
